@@ -104,19 +104,19 @@ def __try_split_node_in_group__(
     prob_groups: List[List],
     group_index: int,
 ) -> bool:
-    group_a: List[_Node[U]] = prob_groups[group_index][1]
-    # Sort group by ascending probability
-    group_a_bis = sorted(group_a, key=lambda x: x.probability)
+    group_a: List[_Node[U]] = prob_groups[group_index][0]
+    # Indices of the nodes of the group by ascending probability
+    order = sorted(range(len(group_a)), key=lambda idx: group_a[idx].probability)
     # Try splitting a node until success
     i = 1
-    success, new_nodes = __node_split__(pcfg, group_a_bis[-i])
+    success, new_nodes = __node_split__(pcfg, group_a[order[-i]])
     while not success and i < len(group_a):
         i += 1
-        success, new_nodes = __node_split__(pcfg, group_a_bis[-i])
-    if i >= len(group_a):
+        success, new_nodes = __node_split__(pcfg, group_a[order[-i]])
+    if not success:
         return False
-    # Success, remove old node
-    group_a.pop(-i)
+    # Success, remove the node that was split
+    group_a.pop(order[-i])
     # Add new nodes
     for new_node in new_nodes:
         group_a.append(new_node)
@@ -128,11 +128,10 @@ def __find_swap_for_group__(
     prob_groups: List[List],
     group_index: int,
 ) -> Optional[Tuple[int, Optional[int], int]]:
-    max_prob: float = prob_groups[-1][1]
-    min_prob: float = prob_groups[0][1]
     group_a, prob = prob_groups[group_index]
     best_swap: Optional[Tuple[int, Optional[int], int]] = None
-    current_score: float = max_prob / prob
+    # The score is the ratio between the heaviest and the lightest group
+    current_score: float = prob_groups[-1][1] / prob_groups[0][1]
 
     candidates = (
         list(range(len(prob_groups) - 1, group_index, -1))
@@ -142,9 +141,11 @@ def __find_swap_for_group__(
 
     for i in candidates:
         group_b, prob_b = prob_groups[i]
+        others: List[float] = [
+            p for idx, (_, p) in enumerate(prob_groups) if idx != i and idx != group_index
+        ]
         for j, node_a in enumerate(group_a):
             pa: float = node_a.probability
-            reduced_prob: float = prob - pa
             # Try all swaps
             for k, node_b in enumerate(group_b):
                 pb: float = node_b.probability
@@ -154,52 +155,25 @@ def __find_swap_for_group__(
                     or not __all_compatible__(pcfg, node_b, group_a)
                 ):
                     continue
-                new_mass_b: float = prob_b - pb + pa
-                mini = min_prob if group_index > 0 else reduced_prob + pb
-                maxi = (
-                    max(new_mass_b, prob_groups[-2][1])
-                    if j == len(prob_groups) - 1
-                    else max_prob
-                )
-                new_score = maxi / mini
+                # Same order of operations as in __apply_swap__
+                masses = others + [prob - pa + pb, prob_b + pa - pb]
+                new_score = max(masses) / min(masses)
                 if new_score < current_score:
                     best_swap = (i, j, k)
                     current_score = new_score
-        # Consider taking something from b
+        # Consider taking something from b, but never its last node
+        if len(group_b) <= 1:
+            continue
         for k, node_b in enumerate(group_b):
             if not __all_compatible__(pcfg, node_b, group_a):
                 continue
             pb = node_b.probability
-            if prob + pb > max_prob:
-                new_score = (prob + pb) / min_prob
-            else:
-                new_score = max_prob / (prob + pb)
+            masses = others + [prob + pb, prob_b - pb]
+            new_score = max(masses) / min(masses)
             if new_score < current_score:
                 best_swap = (i, None, k)
                 current_score = new_score
     return best_swap
-
-
-def __percolate_down__(prob_groups: List[List], group_index: int) -> None:
-    index = group_index
-    p = prob_groups[group_index][1]
-    while index > 0 and prob_groups[index - 1][1] > p:
-        prob_groups[index - 1], prob_groups[index] = (
-            prob_groups[index],
-            prob_groups[index - 1],
-        )
-        index -= 1
-
-
-def __percolate_up__(prob_groups: List[List], group_index: int) -> None:
-    index = group_index
-    p = prob_groups[group_index][1]
-    while index < len(prob_groups) - 2 and prob_groups[index + 1][1] < p:
-        prob_groups[index + 1], prob_groups[index] = (
-            prob_groups[index],
-            prob_groups[index + 1],
-        )
-        index += 1
 
 
 def __apply_swap__(
@@ -207,7 +181,7 @@ def __apply_swap__(
 ) -> None:
     j, k, l = swap
     # App
-    if k:
+    if k is not None:
         node_a = prob_groups[group_index][0].pop(k)
         prob_groups[group_index][1] -= node_a.probability
         prob_groups[j][0].append(node_a)
@@ -218,8 +192,8 @@ def __apply_swap__(
     prob_groups[group_index][0].append(node_b)
     prob_groups[group_index][1] += node_b.probability
 
-    __percolate_down__(prob_groups, -1)
-    __percolate_up__(prob_groups, group_index)
+    # Keep the groups sorted by mass
+    prob_groups.sort(key=lambda x: x[1])
 
 
 def __split_into_nodes__(
